@@ -9,6 +9,7 @@ import struct
 
 from hypothesis import strategies as st
 
+from vf import pins
 from vf.core import CaseFailed, EnumPart, HarnessError, HypPart, Oracle, SkipCase, VERIF_DIR, spsdk_frame
 from vf.gen import dbenum
 from vf.gen import keys as K
@@ -851,4 +852,5 @@ def parts(ctx):
     return [
         EnumPart("db_tuples", lambda tier: len(_combos()), _combo_case, run_case),
         HypPart("images", _cases(ctx.quick), run_case, {"quick": 320, "thorough": 20000}),
+        pins.part(["ahab"], 400),  # container / image type and core numbers, alignments, load addresses per device
     ]
